@@ -8,6 +8,7 @@ const EXTENSIONS: &[fn(&str, &Value) -> Option<Value>] = &[
     crate::ops_lex::dispatch,
     crate::ops_json::dispatch,
     crate::ops_hooks::dispatch,
+    crate::ops_pure::dispatch,
 ];
 const EXTENSIONS: &[fn(&str, &Value) -> Option<Value>] = &[crate::ops_err::dispatch];
 
